@@ -19,13 +19,25 @@
    - jdec_tokens_linear as requested; payloads: sum tok_size <= 3 * bytes
      (K' = 3, reached: jdec_factor3).
    - unmarshal_fuel_mono as requested.
-   - unmarshal_total: FALSE under atlas_ranked (unmarshal_total_ranked_refuted) and
+   - unmarshal_total: FALSE under atlas_ranked (unmarshal_total_ranked_refuted: a
+     transform entry for a pointer type whose wire is that pointer type) and
      FALSE with slope 4 for any constant (unmarshal_slope4_refuted, empty atlas);
-     true under the boolean hypothesis [uranked A d] with
-       (3 d + 5) + (3 d + 6) * length ts <= f.
-     unmarshal_top (fuel 50 + 4 * tokens) does return UTFuel on hostile input
-     (unmarshal_top_fuel_refuted); unmarshal_top_with_total / _mono /
-     unmarshal_top_total_short are the true replacements.
+     true under the boolean hypothesis [cranked A d] (the token-free call chains
+     through transform wires and the untyped slot's tag lookup end within d visits,
+     taking into account that a transform strips its own tag: untag_own) with
+       (3 d + 5) + (3 d + 6) * length ts <= f          (unmarshal_total_chains).
+     The older, coarser hypothesis [uranked A d] implies it (uranked_cranked), so the
+     earlier statement unmarshal_total is unchanged and still proved.  The tag cycle
+     that refuted "atlas_ranked suffices" before the repair of the Go code (tagged
+     transform with wire interface{}) now terminates: cex_tag_cycle_now_terminates.
+     Simple sufficient condition: acyclic transform wires + "the entry found for a
+     tagged entry's type carries that tag" (wires_ranked, tags_own_type;
+     unmarshal_total_wires); the second part is needed
+     (unmarshal_total_wires_needs_own_type; atlas.Build enforces it).
+     unmarshal_top (fuel 64 + 16 * tokens) never returns UTFuel when cranked A 3
+     (unmarshal_top_total, no restriction on the length); for longer chains it can
+     (unmarshal_top_fuel_refuted, a chain of 7 transforms); unmarshal_top_with_total /
+     _mono / unmarshal_top_total_short are the general forms.
    - unmarshal_size_linear: with gsize the statement is FALSE even with a type-size
      term added once (gsize_bound_needs_type_term,
      gsize_grows_by_type_size_per_element); true for [dsize] (payload bytes, slice
@@ -913,35 +925,133 @@ Print Assumptions unmarshal_fuel_mono.
 
 (* ---------- a linear fuel bound ------------------------------------------- *)
 
-(* Calls that pass the token list on unchanged: unmarshal -> bare -> entry
-   (transform) -> bare of the wire type -> ..., and bare -> kind -> any (tagged
-   token) -> bare of the tagged entry's type -> ...  [bare_ok n t]: every such
-   chain from [unmarshal_bare _ t] ends within n visits of unmarshal_bare. *)
-Definition tagged_all (A : atlas) (p : gtype -> bool) : bool :=
-  forallb (fun e => match ae_tag e with Some _ => p (ae_type e) | None => true end) (a_entries A).
+(* Calls that pass the token list on without consuming a token:
+     unmarshal -> bare -> entry (transform) -> bare of the wire type -> ...,  and
+     bare -> kind -> any (tagged token) -> bare of the tagged entry's type -> ...
+   A transform entry hands the token on WITHOUT its own tag (untag_own), and an item
+   carries one tag only: once the tag is gone, the untyped slot consumes the token.
+   [chain_ok A n tg t]: the chain from [unmarshal_bare _ t] on a list whose first
+   token carries tag [tg] ends within n visits of unmarshal_bare. *)
+Definition strip_tag (own tg : option Z) : option Z :=
+  match own, tg with
+  | Some t, Some t' => if t =? t' then None else tg
+  | _, _ => tg
+  end.
+
+Definition first_tag (ts : list token) : option Z :=
+  match ts with Tok _ tg :: _ => tg | [] => None end.
+
+Lemma first_tag_untag own ts : first_tag (untag_own own ts) = strip_tag own (first_tag ts).
+Proof.
+  destruct own as [t|]; [|reflexivity]. destruct ts as [|[v [t'|]] r]; try reflexivity.
+  cbn. destruct (t =? t'); reflexivity.
+Qed.
 
 Definition is_any (t : gtype) : bool :=
   match t with GAny | GIface _ => true | _ => false end.
 
-Fixpoint bare_ok (A : atlas) (n : nat) (t : gtype) : bool :=
+Fixpoint chain_ok (A : atlas) (n : nat) (tg : option Z) (t : gtype) : bool :=
   match n with
   | O => false
   | S m =>
     if is_unnamed_prim t then true
     else
       match atlas_get A t with
-      | Some e => match ae_kind e with ETransform _ w => bare_ok A m w | _ => true end
-      | None => if is_any (strip_named t) then tagged_all A (bare_ok A m) else true
+      | Some e => match ae_kind e with
+                  | ETransform _ w => chain_ok A m (strip_tag (ae_tag e) tg) w
+                  | _ => true
+                  end
+      | None =>
+          if is_any (strip_named t) then
+            match tg with
+            | None => true
+            | Some g => match atlas_by_tag A g with
+                        | None => true
+                        | Some e => chain_ok A m tg (ae_type e)
+                        end
+            end
+          else true
       end
   end.
 
-Definition entry_ok (A : atlas) (m : nat) (e : atlas_entry) : bool :=
-  match ae_kind e with ETransform _ w => bare_ok A m w | _ => true end.
+Definition any_ok (A : atlas) (m : nat) (tg : option Z) : bool :=
+  match tg with
+  | None => true
+  | Some g => match atlas_by_tag A g with
+              | None => true
+              | Some e => chain_ok A m tg (ae_type e)
+              end
+  end.
 
-(* the decidable hypothesis: chains starting at a tagged entry or at a wire type
-   end within d visits *)
-Definition uranked (A : atlas) (d : nat) : bool :=
-  tagged_all A (bare_ok A d) && forallb (entry_ok A d) (a_entries A).
+Definition entry_ok (A : atlas) (m : nat) (tg : option Z) (e : atlas_entry) : bool :=
+  match ae_kind e with ETransform _ w => chain_ok A m (strip_tag (ae_tag e) tg) w | _ => true end.
+
+Lemma chain_ok_S A m tg t : chain_ok A (S m) tg t =
+  if is_unnamed_prim t then true
+  else match atlas_get A t with
+       | Some e => entry_ok A m tg e
+       | None => if is_any (strip_named t) then any_ok A m tg else true
+       end.
+Proof. reflexivity. Qed.
+
+Definition atlas_tags (A : atlas) : list Z :=
+  flat_map (fun e => match ae_tag e with Some g => [g] | None => [] end) (a_entries A).
+
+(* the decidable hypothesis: for the tags the atlas knows (and for "no tag") the
+   chains that start at an entry or at the untyped slot end within d visits *)
+Definition cranked (A : atlas) (d : nat) : bool :=
+  forallb (fun tg => forallb (entry_ok A d tg) (a_entries A) && any_ok A d tg)
+          (None :: map Some (atlas_tags A)).
+
+Lemma find_tag_none es g :
+  ~ In g (flat_map (fun e => match ae_tag e with Some g => [g] | None => [] end) es) ->
+  find_tag es g = None.
+Proof.
+  induction es as [|e r IH]; cbn [flat_map find_tag]; [reflexivity|].
+  intros H. destruct (ae_tag e) as [t|].
+  - destruct (t =? g) eqn:Eg.
+    + exfalso. apply H. left. lia.
+    + apply IH. intros Hin. apply H. right. exact Hin.
+  - apply IH. exact H.
+Qed.
+
+Lemma In_atlas_tags A e g : In e (a_entries A) -> ae_tag e = Some g -> In g (atlas_tags A).
+Proof.
+  unfold atlas_tags. intros Hin Ht. apply in_flat_map. exists e. split; [exact Hin|].
+  rewrite Ht. left. reflexivity.
+Qed.
+
+(* a tag the atlas does not know behaves like no tag: nothing strips it, and the
+   untyped slot stops the chain (with an error) *)
+Lemma chain_ok_unknown_tag A g : ~ In g (atlas_tags A) ->
+  forall n t, chain_ok A n (Some g) t = chain_ok A n None t.
+Proof.
+  intros Hg. induction n as [|m IH]; intros t; [reflexivity|].
+  rewrite !chain_ok_S. destruct (is_unnamed_prim t); [reflexivity|].
+  destruct (atlas_get A t) as [e|] eqn:G.
+  - unfold entry_ok. destruct (ae_kind e) as [fields|kind w|members|mode]; try reflexivity.
+    assert (Es : strip_tag (ae_tag e) (Some g) = Some g).
+    { destruct (ae_tag e) as [t0|] eqn:Et; [|reflexivity]. cbn.
+      destruct (t0 =? g) eqn:Eg; [|reflexivity].
+      exfalso. apply Hg. apply (In_atlas_tags A e); [eapply atlas_get_In; exact G|].
+      rewrite Et. f_equal. lia. }
+    rewrite Es. assert (En : strip_tag (ae_tag e) None = None) by (destruct (ae_tag e); reflexivity).
+    rewrite En. apply IH.
+  - destruct (is_any (strip_named t)); [|reflexivity].
+    cbn [any_ok]. unfold atlas_by_tag. rewrite (find_tag_none _ _ Hg). reflexivity.
+Qed.
+
+Lemma entry_ok_unknown_tag A g : ~ In g (atlas_tags A) ->
+  forall n e, In e (a_entries A) -> entry_ok A n (Some g) e = entry_ok A n None e.
+Proof.
+  intros Hg n e Hin. unfold entry_ok. destruct (ae_kind e) as [fields|kind w|members|mode]; try reflexivity.
+  assert (Es : strip_tag (ae_tag e) (Some g) = Some g).
+  { destruct (ae_tag e) as [t0|] eqn:Et; [|reflexivity]. cbn.
+    destruct (t0 =? g) eqn:Eg; [|reflexivity].
+    exfalso. apply Hg. apply (In_atlas_tags A e); [exact Hin|]. rewrite Et. f_equal. lia. }
+  rewrite Es. replace (strip_tag (ae_tag e) None) with (@None Z) by (destruct (ae_tag e); reflexivity).
+  apply chain_ok_unknown_tag. exact Hg.
+Qed.
 
 Lemma ubind_nofuel r k :
   r <> UFuel -> (forall v rest, r = UOk v rest -> k v rest <> UFuel) -> ubind r k <> UFuel.
@@ -956,25 +1066,46 @@ Section UTotal.
   Variable E : tenv.
   Variable A : atlas.
   Variable d : nat.
-  Hypothesis Hr : uranked A d = true.
+  Hypothesis Hr : cranked A d = true.
   Variable al : nat.
   Hypothesis Hal : (3 * d + 6 <= al)%nat.
 
-  Lemma any_ok_d : tagged_all A (bare_ok A d) = true.
-  Proof. unfold uranked in Hr. apply andb_true_iff in Hr. apply Hr. Qed.
-
-  Lemma entry_ok_d e : In e (a_entries A) -> entry_ok A d e = true.
+  Lemma cranked_known tg : In tg (None :: map Some (atlas_tags A)) ->
+    (forall e, In e (a_entries A) -> entry_ok A d tg e = true) /\ any_ok A d tg = true.
   Proof.
-    unfold uranked in Hr. apply andb_true_iff in Hr. destruct Hr as [_ H].
-    rewrite forallb_forall in H. apply H.
+    intros Hin. unfold cranked in Hr. rewrite forallb_forall in Hr. specialize (Hr _ Hin).
+    apply andb_true_iff in Hr. destruct Hr as [H1 H2]. rewrite forallb_forall in H1. split; assumption.
   Qed.
 
-  Lemma bare_ok_all t : bare_ok A (S d) t = true.
+  Lemma chain_ok_all tg t : chain_ok A (S d) tg t = true.
   Proof.
-    cbn [bare_ok]. destruct (is_unnamed_prim t); [reflexivity|].
-    destruct (atlas_get A t) as [e|] eqn:G.
-    - apply atlas_get_In in G. apply entry_ok_d in G. exact G.
-    - destruct (is_any (strip_named t)); [apply any_ok_d | reflexivity].
+    assert (Hk : forall tg', In tg' (None :: map Some (atlas_tags A)) -> chain_ok A (S d) tg' t = true).
+    { intros tg' Hin. destruct (cranked_known tg' Hin) as [He Ha]. rewrite chain_ok_S.
+      destruct (is_unnamed_prim t); [reflexivity|].
+      destruct (atlas_get A t) as [e|] eqn:G.
+      - apply He. eapply atlas_get_In; exact G.
+      - destruct (is_any (strip_named t)); [exact Ha | reflexivity]. }
+    destruct tg as [g|]; [|apply Hk; left; reflexivity].
+    destruct (in_dec Z.eq_dec g (atlas_tags A)) as [Hin|Hnin].
+    - apply Hk. right. apply in_map. exact Hin.
+    - rewrite (chain_ok_unknown_tag A g Hnin). apply Hk. left; reflexivity.
+  Qed.
+
+  Lemma entry_ok_d tg e : In e (a_entries A) -> entry_ok A d tg e = true.
+  Proof.
+    intros Hin. destruct tg as [g|]; [|apply (cranked_known None); [left; reflexivity | exact Hin]].
+    destruct (in_dec Z.eq_dec g (atlas_tags A)) as [Hg|Hg].
+    - apply (cranked_known (Some g)); [right; apply in_map; exact Hg | exact Hin].
+    - rewrite (entry_ok_unknown_tag A g Hg d e Hin).
+      apply (cranked_known None); [left; reflexivity | exact Hin].
+  Qed.
+
+  Lemma any_ok_d tg : any_ok A d tg = true.
+  Proof.
+    destruct tg as [g|]; [|reflexivity].
+    destruct (in_dec Z.eq_dec g (atlas_tags A)) as [Hg|Hg].
+    - apply (cranked_known (Some g)). right. apply in_map. exact Hg.
+    - cbn [any_ok]. unfold atlas_by_tag. rewrite (find_tag_none _ _ Hg). reflexivity.
   Qed.
 
   Lemma unm_consumes f t cur ts v rest :
@@ -999,34 +1130,25 @@ Section UTotal.
 
   Definition tot_all (f : nat) : Prop :=
     (forall t cur ts, (M + al * length ts <= f)%nat -> unmarshal E A f t cur ts <> UFuel) /\
-    (forall m t cur ts, bare_ok A (S m) t = true -> (3 * m + 4 + al * length ts <= f)%nat ->
+    (forall m t cur ts, chain_ok A (S m) (first_tag ts) t = true -> (3 * m + 4 + al * length ts <= f)%nat ->
                         unmarshal_bare E A f t cur ts <> UFuel) /\
-    (forall m t cur ts, (is_any t = true -> tagged_all A (bare_ok A m) = true) ->
+    (forall m t cur ts, (is_any t = true -> any_ok A m (first_tag ts) = true) ->
                         (3 * m + 3 + al * length ts <= f)%nat ->
                         unmarshal_kind E A f t cur ts <> UFuel) /\
-    (forall m ts, tagged_all A (bare_ok A m) = true -> (3 * m + 2 + al * length ts <= f)%nat ->
+    (forall m ts, any_ok A m (first_tag ts) = true -> (3 * m + 2 + al * length ts <= f)%nat ->
                   unmarshal_any E A f ts <> UFuel) /\
     (forall et acc ts, (M + 1 + al * length ts <= f)%nat -> unmarshal_slice E A f et acc ts <> UFuel) /\
     (forall n et acc ts, (M + 1 + al * length ts <= f)%nat -> unmarshal_array E A f n et acc ts <> UFuel) /\
     (forall kt vt cur ts, (1 + al * length ts <= f)%nat -> unmarshal_map E A f kt vt cur ts <> UFuel) /\
     (forall ds vt es ts, (1 + al * length ts <= f)%nat ->
                          unmarshal_map_entries E A f ds vt es ts <> UFuel) /\
-    (forall m e cur ts, entry_ok A m e = true -> (3 * m + 3 + al * length ts <= f)%nat ->
+    (forall m e cur ts, entry_ok A m (first_tag ts) e = true -> (3 * m + 3 + al * length ts <= f)%nat ->
                         unmarshal_entry E A f e cur ts <> UFuel) /\
     (forall st fs len cur cnt ts, (1 + al * length ts <= f)%nat ->
                                   unmarshal_fields E A f st fs len cur cnt ts <> UFuel).
 
   Lemma tot_zero : tot_all 0.
   Proof. unfold tot_all, M. repeat split; intros; lia. Qed.
-
-  Lemma tagged_by_tag p tg e : tagged_all A p = true -> atlas_by_tag A tg = Some e -> p (ae_type e) = true.
-  Proof.
-    unfold tagged_all, atlas_by_tag. induction (a_entries A) as [|x r IH]; cbn [forallb find_tag]; [discriminate|].
-    intros H. apply andb_true_iff in H. destruct H as [H1 H2].
-    destruct (ae_tag x) as [t|].
-    - destruct (t =? tg); [intros G; inversion G; subst; exact H1 | apply IH; exact H2].
-    - apply IH; exact H2.
-  Qed.
 
   Ltac nf := discriminate.
   Ltac cons_tac := cbn [length] in *; unfold M in *; lia.
@@ -1049,13 +1171,13 @@ Section UTotal.
     - (* unmarshal *)
       intros t cur ts Hlen. rewrite unmarshal_S. destruct (peel t) as [n base].
       assert (Hbase : forall cur', unmarshal_bare E A f base cur' ts <> UFuel).
-      { intros cur'. apply (Hb d); [apply bare_ok_all | cons_tac]. }
+      { intros cur'. apply (Hb d); [apply chain_ok_all | cons_tac]. }
       destruct n as [|n]; [apply Hbase|].
       destruct ts as [|[v tg] r]; [nf|].
       destruct v; try nf; (apply ubind_nofuel; [apply Hbase | intros; nf]).
     - (* bare *)
       intros m t cur ts Hok Hlen. rewrite unmarshal_bare_S.
-      cbn [bare_ok] in Hok.
+      rewrite chain_ok_S in Hok.
       destruct (is_unnamed_prim t); [apply uprim_nofuel|].
       destruct (atlas_get A t) as [e|].
       + apply (He m); [exact Hok | cons_tac].
@@ -1077,11 +1199,11 @@ Section UTotal.
     - (* any *)
       intros m ts Hok Hlen. rewrite unmarshal_any_S.
       destruct ts as [|[v [tg|]] r]; [nf| |].
-      + destruct (atlas_by_tag A tg) as [e|] eqn:G; [|nf]. cbv zeta.
+      + cbn [first_tag any_ok] in Hok.
+        destruct (atlas_by_tag A tg) as [e|] eqn:G; [|nf]. cbv zeta.
         apply ubind_nofuel; [|intros; nf].
-        pose proof (tagged_by_tag _ _ _ Hok G) as Hbe.
         destruct m as [|m]; [discriminate|].
-        apply (Hb m); [exact Hbe | cons_tac].
+        apply (Hb m); [exact Hok | cons_tac].
       + destruct v; try nf.
         * apply ubind_nofuel; [|intros; nf]. apply Hm. cons_tac.
         * apply ubind_nofuel; [|intros; nf]. apply Hs.
@@ -1128,7 +1250,8 @@ Section UTotal.
         pose proof (mul_lt_step al (length r) (length (Tok (MapOpen len) tg :: r)) ltac:(cbn [length]; lia)).
         cons_tac.
       + apply ubind_nofuel.
-        * destruct m as [|m]; [discriminate|]. apply (Hb m); [exact Hok | cons_tac].
+        * destruct m as [|m]; [discriminate|].
+          apply (Hb m); [rewrite first_tag_untag; exact Hok | rewrite untag_own_length; cons_tac].
         * intros w rest _. destruct (tr_bwd kind w); nf.
       + destruct ts as [|[v tg] r]; [nf|].
         destruct v; try nf.
@@ -1167,9 +1290,9 @@ Section UTotal.
   Proof. induction f; [apply tot_zero | apply tot_step; assumption]. Qed.
 End UTotal.
 
-(* c A = 3 d + 5 and the slope is 3 d + 6, where d bounds the token-free chains
-   through transforms and tags *)
-Theorem unmarshal_total : forall E A d, uranked A d = true ->
+(* THE FUEL THEOREM.  c A = 3 d + 5 and the slope is 3 d + 6, where d bounds the
+   token-free chains through transform wires and tags *)
+Theorem unmarshal_total_chains : forall E A d, cranked A d = true ->
   forall f t cur ts, ((3 * d + 5) + (3 * d + 6) * length ts <= f)%nat ->
   unmarshal E A f t cur ts <> UFuel.
 Proof.
@@ -1177,14 +1300,205 @@ Proof.
   destruct (tot_all_holds E A d Hr (3 * d + 6)%nat (le_n _) f) as (Hu & _).
   apply Hu. unfold M. exact Hf.
 Qed.
+Print Assumptions unmarshal_total_chains.
+
+(* ---- the earlier, coarser hypothesis (every tagged entry is a possible successor
+   of the untyped slot, whatever tag the token has and whether or not it was already
+   stripped) implies the new one ---- *)
+Definition tagged_all (A : atlas) (p : gtype -> bool) : bool :=
+  forallb (fun e => match ae_tag e with Some _ => p (ae_type e) | None => true end) (a_entries A).
+
+Fixpoint bare_ok (A : atlas) (n : nat) (t : gtype) : bool :=
+  match n with
+  | O => false
+  | S m =>
+    if is_unnamed_prim t then true
+    else
+      match atlas_get A t with
+      | Some e => match ae_kind e with ETransform _ w => bare_ok A m w | _ => true end
+      | None => if is_any (strip_named t) then tagged_all A (bare_ok A m) else true
+      end
+  end.
+
+Definition uranked (A : atlas) (d : nat) : bool :=
+  tagged_all A (bare_ok A d) &&
+  forallb (fun e => match ae_kind e with ETransform _ w => bare_ok A d w | _ => true end) (a_entries A).
+
+Lemma tagged_by_tag A p tg e : tagged_all A p = true -> atlas_by_tag A tg = Some e -> p (ae_type e) = true.
+Proof.
+  unfold tagged_all, atlas_by_tag. induction (a_entries A) as [|x r IH]; cbn [forallb find_tag]; [discriminate|].
+  intros H. apply andb_true_iff in H. destruct H as [H1 H2].
+  destruct (ae_tag x) as [t|].
+  - destruct (t =? tg); [intros G; inversion G; subst; exact H1 | apply IH; exact H2].
+  - apply IH; exact H2.
+Qed.
+
+Lemma bare_ok_chain_ok A : forall n tg t, bare_ok A n t = true -> chain_ok A n tg t = true.
+Proof.
+  induction n as [|m IH]; intros tg t; [discriminate|].
+  cbn [bare_ok]. rewrite chain_ok_S. destruct (is_unnamed_prim t); [reflexivity|].
+  destruct (atlas_get A t) as [e|].
+  - unfold entry_ok. destruct (ae_kind e); try reflexivity. apply IH.
+  - destruct (is_any (strip_named t)); [|reflexivity].
+    intros H. destruct tg as [g|]; [|reflexivity]. cbn [any_ok].
+    destruct (atlas_by_tag A g) as [e|] eqn:G; [|reflexivity].
+    apply IH. eapply tagged_by_tag; [exact H | exact G].
+Qed.
+
+Lemma uranked_cranked A d : uranked A d = true -> cranked A d = true.
+Proof.
+  unfold uranked, cranked. intros H. apply andb_true_iff in H. destruct H as [H1 H2].
+  rewrite forallb_forall in H2. apply forallb_forall. intros tg _. apply andb_true_iff. split.
+  - apply forallb_forall. intros e Hin. specialize (H2 e Hin). unfold entry_ok.
+    destruct (ae_kind e); try reflexivity. apply bare_ok_chain_ok. exact H2.
+  - destruct tg as [g|]; [|reflexivity]. cbn [any_ok].
+    destruct (atlas_by_tag A g) as [e|] eqn:G; [|reflexivity].
+    apply bare_ok_chain_ok. eapply tagged_by_tag; [exact H1 | exact G].
+Qed.
+
+(* the statement as it was before the change of the model: still true *)
+Theorem unmarshal_total : forall E A d, uranked A d = true ->
+  forall f t cur ts, ((3 * d + 5) + (3 * d + 6) * length ts <= f)%nat ->
+  unmarshal E A f t cur ts <> UFuel.
+Proof. intros E A d Hr. apply unmarshal_total_chains. apply uranked_cranked. exact Hr. Qed.
 Print Assumptions unmarshal_total.
 
+(* ---- a simple sufficient condition: no cyclic chain through transform WIRES, in an
+   atlas where the entry found for a tagged entry's type carries that tag (atlas.Build
+   refuses repeated types, so there the entry found is the tagged entry itself) ---- *)
+Fixpoint wire_ok (A : atlas) (n : nat) (t : gtype) : bool :=
+  match n with
+  | O => false
+  | S m =>
+    if is_unnamed_prim t then true
+    else
+      match atlas_get A t with
+      | Some e => match ae_kind e with ETransform _ w => wire_ok A m w | _ => true end
+      | None => true
+      end
+  end.
 
-(* ---------- refutations ------------------------------------------------------ *)
+Definition wires_ranked (A : atlas) (d : nat) : bool :=
+  forallb (fun e => match ae_kind e with ETransform _ w => wire_ok A d w | _ => true end) (a_entries A).
 
-(* (a) [atlas_ranked] does not make the unmarshaller terminate: a tagged
-   transform entry whose wire type is interface{} sends a token carrying that
-   tag round and round (any -> entry by tag -> wire = any -> ...). *)
+Definition opt_eqb (a b : option Z) : bool :=
+  match a, b with Some x, Some y => x =? y | None, None => true | _, _ => false end.
+
+Definition tags_own_type (A : atlas) : bool :=
+  forallb (fun e => match ae_tag e with
+                    | None => true
+                    | Some _ => is_unnamed_prim (ae_type e) ||
+                                match atlas_get A (ae_type e) with
+                                | Some e' => opt_eqb (ae_tag e') (ae_tag e)
+                                | None => false
+                                end
+                    end) (a_entries A).
+
+Lemma chain_ok_mono A : forall n k tg t, chain_ok A n tg t = true -> chain_ok A (n + k) tg t = true.
+Proof.
+  induction n as [|m IH]; intros k tg t; [discriminate|].
+  change (S m + k)%nat with (S (m + k)). rewrite !chain_ok_S.
+  destruct (is_unnamed_prim t); [reflexivity|].
+  destruct (atlas_get A t) as [e|].
+  - unfold entry_ok. destruct (ae_kind e); try reflexivity. apply IH.
+  - destruct (is_any (strip_named t)); [|reflexivity].
+    destruct tg as [g|]; [|reflexivity]. cbn [any_ok].
+    destruct (atlas_by_tag A g); [apply IH | reflexivity].
+Qed.
+
+Lemma wire_ok_chain_none A : forall n t, wire_ok A n t = true -> chain_ok A n None t = true.
+Proof.
+  induction n as [|m IH]; intros t; [discriminate|].
+  cbn [wire_ok]. rewrite chain_ok_S. destruct (is_unnamed_prim t); [reflexivity|].
+  destruct (atlas_get A t) as [e|].
+  - unfold entry_ok. destruct (ae_kind e); try reflexivity.
+    replace (strip_tag (ae_tag e) None) with (@None Z) by (destruct (ae_tag e); reflexivity). apply IH.
+  - destruct (is_any (strip_named t)); reflexivity.
+Qed.
+
+Lemma find_tag_some es g e : find_tag es g = Some e -> In e es /\ ae_tag e = Some g.
+Proof.
+  induction es as [|x r IH]; cbn [find_tag]; [discriminate|].
+  destruct (ae_tag x) as [t|] eqn:Et.
+  - destruct (t =? g) eqn:Eg.
+    + intros H; inversion H; subst. split; [left; reflexivity|]. rewrite Et. f_equal. lia.
+    + intros H. destruct (IH H). split; [right|]; assumption.
+  - intros H. destruct (IH H). split; [right|]; assumption.
+Qed.
+
+Section Wires.
+  Variable A : atlas.
+  Variable d : nat.
+  Hypothesis Hw : wires_ranked A d = true.
+  Hypothesis Ho : tags_own_type A = true.
+
+  Lemma wire_entry e kind w : In e (a_entries A) -> ae_kind e = ETransform kind w -> wire_ok A d w = true.
+  Proof.
+    intros Hin K. unfold wires_ranked in Hw. rewrite forallb_forall in Hw. specialize (Hw e Hin).
+    rewrite K in Hw. exact Hw.
+  Qed.
+
+  (* from the type of the entry a tag selects: one visit, the tag goes, then a wire chain *)
+  Lemma tagged_start g e : atlas_by_tag A g = Some e -> chain_ok A (S (S d)) (Some g) (ae_type e) = true.
+  Proof.
+    intros G. apply find_tag_some in G. destruct G as [Hin Ht].
+    unfold tags_own_type in Ho. rewrite forallb_forall in Ho. specialize (Ho e Hin). rewrite Ht in Ho.
+    rewrite chain_ok_S. destruct (is_unnamed_prim (ae_type e)); [reflexivity|]. cbn [orb] in Ho.
+    destruct (atlas_get A (ae_type e)) as [e'|] eqn:G'; [|discriminate].
+    unfold entry_ok. destruct (ae_kind e') as [fields|kind w|members|mode] eqn:K; try reflexivity.
+    destruct (ae_tag e') as [g'|]; [|discriminate]. cbn in Ho.
+    assert (g' = g) by lia. subst g'. cbn [strip_tag]. rewrite Z.eqb_refl.
+    replace (S d) with (d + 1)%nat by lia. apply chain_ok_mono. apply wire_ok_chain_none.
+    eapply wire_entry; [eapply atlas_get_In; exact G' | exact K].
+  Qed.
+
+  Lemma wire_ok_chain : forall n tg t, wire_ok A n t = true -> chain_ok A (n + S (S d)) tg t = true.
+  Proof.
+    induction n as [|m IH]; intros tg t; [discriminate|].
+    cbn [wire_ok]. change (S m + S (S d))%nat with (S (m + S (S d))). rewrite chain_ok_S.
+    destruct (is_unnamed_prim t); [reflexivity|].
+    destruct (atlas_get A t) as [e|].
+    - unfold entry_ok. destruct (ae_kind e); try reflexivity. apply IH.
+    - intros _. destruct (is_any (strip_named t)); [|reflexivity].
+      destruct tg as [g|]; [|reflexivity]. cbn [any_ok].
+      destruct (atlas_by_tag A g) as [e|] eqn:G; [|reflexivity].
+      replace (m + S (S d))%nat with (S (S d) + m)%nat by lia.
+      apply chain_ok_mono. apply tagged_start. exact G.
+  Qed.
+
+  Lemma wires_cranked : cranked A (2 * d + 2) = true.
+  Proof.
+    unfold cranked. apply forallb_forall. intros tg _. apply andb_true_iff. split.
+    - apply forallb_forall. intros e Hin. unfold entry_ok.
+      destruct (ae_kind e) as [fields|kind w|members|mode] eqn:K; try reflexivity.
+      replace (2 * d + 2)%nat with (d + S (S d))%nat by lia.
+      apply wire_ok_chain. eapply wire_entry; [exact Hin | exact K].
+    - destruct tg as [g|]; [|reflexivity]. cbn [any_ok].
+      destruct (atlas_by_tag A g) as [e|] eqn:G; [|reflexivity].
+      replace (2 * d + 2)%nat with (S (S d) + d)%nat by lia.
+      apply chain_ok_mono. apply tagged_start. exact G.
+  Qed.
+End Wires.
+
+Theorem unmarshal_total_wires : forall E A d, wires_ranked A d = true -> tags_own_type A = true ->
+  forall f t cur ts, ((6 * d + 11) + (6 * d + 12) * length ts <= f)%nat ->
+  unmarshal E A f t cur ts <> UFuel.
+Proof.
+  intros E A d Hw Ho f t cur ts Hf.
+  apply (unmarshal_total_chains E A (2 * d + 2) (wires_cranked A d Hw Ho)). lia.
+Qed.
+Print Assumptions unmarshal_total_wires.
+
+
+(* ---------- refutations, and what became of the old one ------------------------- *)
+
+(* (a0) BEFORE the repair of the Go code a tagged transform entry whose wire type is
+   interface{} sent a token carrying that tag round and round (any -> entry by tag ->
+   wire = any -> ...): this was the refutation of "atlas_ranked suffices".  Now the
+   transform hands the token on without the tag, the untyped slot consumes it, and
+   the run ends (here in an error: kind 8 wants a byte string, the slot delivers an
+   interface value).  The old hypothesis [uranked] still rejects this atlas; the
+   new one accepts it. *)
 Definition cex_tag_cycle : atlas := Atlas [AE (GStruct 1) (Some 5) (ETransform 8 GAny)] 0.
 
 Lemma cex_tag_cycle_ranked : atlas_ranked cex_tag_cycle.
@@ -1193,48 +1507,106 @@ Proof.
   destruct Hin as [<-|[]]. cbn in Ht. destruct Ht as [<-|[]]. cbn in Hg. discriminate.
 Qed.
 
-Lemma cex_tag_cycle_bare : forall f cur,
-  unmarshal_bare [] cex_tag_cycle f GAny cur [Tok (Byt []) (Some 5)] = UFuel.
+Example cex_tag_cycle_now_terminates :
+  unmarshal [] cex_tag_cycle 20 GAny (VAny None) [Tok (Byt []) (Some 5)] = UErr 1 /\
+  unmarshal_top [] cex_tag_cycle GAny [Tok (Byt []) (Some 5)] = UTErr 1 /\
+  unmarshal_top [] (Atlas [AE (GStruct 1) (Some 5) (ETransform 9 GAny)] 0) GAny [Tok (Byt []) (Some 5)] =
+    UTDone 1 (VAny (Some (GStruct 1, VStruct [VAny (Some (GBytes, VBytes (Some [])))]))) /\
+  uranked cex_tag_cycle 100 = false /\ cranked cex_tag_cycle 2 = true /\
+  wires_ranked cex_tag_cycle 1 = true /\ tags_own_type cex_tag_cycle = true.
+Proof. vm_compute. repeat split; reflexivity. Qed.
+
+(* (a) [atlas_ranked] (the marshaller's hypothesis) still does not make the
+   unmarshaller terminate: it looks at the wire type behind pointers
+   (marshal peels them), the unmarshaller's transform machine does not.  A tagged
+   transform entry for a pointer type whose wire type is that pointer type: *)
+Definition cex_ptr_cycle : atlas := Atlas [AE (GPtr GStr) (Some 5) (ETransform 1 (GPtr GStr))] 0.
+
+Lemma cex_ptr_cycle_ranked : atlas_ranked cex_ptr_cycle.
 Proof.
-  induction f as [f IH] using lt_wf_ind. intros cur.
+  exists (fun _ => O). intros e t e' Hin Ht Hg.
+  destruct Hin as [<-|[]]. cbn in Ht. destruct Ht as [<-|[]]. cbn in Hg. discriminate.
+Qed.
+
+Lemma cex_ptr_cycle_bare : forall f cur ts,
+  unmarshal_bare [] cex_ptr_cycle f (GPtr GStr) cur ts = UFuel.
+Proof.
+  induction f as [f IH] using lt_wf_ind. intros cur ts.
   destruct f as [|f]; [reflexivity|]. rewrite unmarshal_bare_S.
-  change (is_unnamed_prim GAny) with false. cbv iota.
-  change (atlas_get cex_tag_cycle GAny) with (@None atlas_entry). cbv iota.
-  change (strip_named GAny) with GAny.
-  destruct f as [|f]; [reflexivity|]. rewrite unmarshal_kind_S.
-  destruct f as [|f]; [reflexivity|]. rewrite unmarshal_any_S.
-  change (atlas_by_tag cex_tag_cycle 5) with (Some (AE (GStruct 1) (Some 5) (ETransform 8 GAny))).
-  cbv iota zeta. cbn [ae_type].
-  destruct f as [|f]; [reflexivity|]. rewrite unmarshal_bare_S.
-  change (is_unnamed_prim (GStruct 1)) with false. cbv iota.
-  change (atlas_get cex_tag_cycle (GStruct 1)) with (Some (AE (GStruct 1) (Some 5) (ETransform 8 GAny))).
+  change (is_unnamed_prim (GPtr GStr)) with false. cbv iota.
+  change (atlas_get cex_ptr_cycle (GPtr GStr)) with (Some (AE (GPtr GStr) (Some 5) (ETransform 1 (GPtr GStr)))).
   cbv iota.
   destruct f as [|f]; [reflexivity|]. rewrite unmarshal_entry_S. cbn [ae_kind].
   rewrite IH by lia. reflexivity.
 Qed.
 
 Theorem unmarshal_total_ranked_refuted :
-  atlas_ranked cex_tag_cycle /\
-  forall f, unmarshal [] cex_tag_cycle f GAny (VAny None) [Tok (Byt []) (Some 5)] = UFuel.
+  atlas_ranked cex_ptr_cycle /\
+  forall f, unmarshal [] cex_ptr_cycle f GAny (VAny None) [Tok (Str []) (Some 5)] = UFuel.
 Proof.
-  split; [apply cex_tag_cycle_ranked|].
+  split; [apply cex_ptr_cycle_ranked|].
   intros f. destruct f as [|f]; [reflexivity|]. rewrite unmarshal_S. cbn [peel].
-  apply cex_tag_cycle_bare.
+  destruct f as [|f]; [reflexivity|]. rewrite unmarshal_bare_S.
+  change (is_unnamed_prim GAny) with false. cbv iota.
+  change (atlas_get cex_ptr_cycle GAny) with (@None atlas_entry). cbv iota.
+  change (strip_named GAny) with GAny.
+  destruct f as [|f]; [reflexivity|]. rewrite unmarshal_kind_S.
+  destruct f as [|f]; [reflexivity|]. rewrite unmarshal_any_S.
+  change (atlas_by_tag cex_ptr_cycle 5) with (Some (AE (GPtr GStr) (Some 5) (ETransform 1 (GPtr GStr)))).
+  cbv iota zeta. cbn [ae_type]. rewrite cex_ptr_cycle_bare. reflexivity.
 Qed.
 
-Example cex_tag_cycle_not_uranked : uranked cex_tag_cycle 100 = false.
-Proof. vm_compute. reflexivity. Qed.
+Example cex_ptr_cycle_not_ranked :
+  wires_ranked cex_ptr_cycle 100 = false /\ cranked cex_ptr_cycle 100 = false /\ uranked cex_ptr_cycle 100 = false.
+Proof. vm_compute. repeat split; reflexivity. Qed.
 
-(* (b) the slope 4 of [unmarshal_top] is too small even with an empty atlas:
-   an untyped target takes 5 calls per nested array (any, slice, unmarshal,
-   bare, kind).  60 array heads and nothing else: the answer should be
-   "starved", it is "out of fuel". *)
+(* (a') acyclic wires alone are not enough either: [tags_own_type] is needed.  Two
+   entries for one type (atlas.Build refuses this) with different tags: the tag 5
+   selects the second, its type finds the first, which strips 7 only. *)
+Definition cex_dup_type : atlas :=
+  Atlas [AE (GStruct 1) (Some 7) (ETransform 9 GAny); AE (GStruct 1) (Some 5) (ETransform 9 GAny)] 0.
+
+Lemma cex_dup_type_bare : forall f cur r,
+  unmarshal_bare [] cex_dup_type f GAny cur (Tok (Byt []) (Some 5) :: r) = UFuel.
+Proof.
+  induction f as [f IH] using lt_wf_ind. intros cur r.
+  destruct f as [|f]; [reflexivity|]. rewrite unmarshal_bare_S.
+  change (is_unnamed_prim GAny) with false. cbv iota.
+  change (atlas_get cex_dup_type GAny) with (@None atlas_entry). cbv iota.
+  change (strip_named GAny) with GAny.
+  destruct f as [|f]; [reflexivity|]. rewrite unmarshal_kind_S.
+  destruct f as [|f]; [reflexivity|]. rewrite unmarshal_any_S.
+  change (atlas_by_tag cex_dup_type 5) with (Some (AE (GStruct 1) (Some 5) (ETransform 9 GAny))).
+  cbv iota zeta. cbn [ae_type].
+  destruct f as [|f]; [reflexivity|]. rewrite unmarshal_bare_S.
+  change (is_unnamed_prim (GStruct 1)) with false. cbv iota.
+  change (atlas_get cex_dup_type (GStruct 1)) with (Some (AE (GStruct 1) (Some 7) (ETransform 9 GAny))).
+  cbv iota.
+  destruct f as [|f]; [reflexivity|]. rewrite unmarshal_entry_S. cbn [ae_kind ae_tag].
+  change (untag_own (Some 7) (Tok (Byt []) (Some 5) :: r)) with (Tok (Byt []) (Some 5) :: r).
+  rewrite IH by lia. reflexivity.
+Qed.
+
+Theorem unmarshal_total_wires_needs_own_type :
+  wires_ranked cex_dup_type 1 = true /\ tags_own_type cex_dup_type = false /\
+  cranked cex_dup_type 100 = false /\
+  forall f, unmarshal [] cex_dup_type f GAny (VAny None) [Tok (Byt []) (Some 5)] = UFuel.
+Proof.
+  split; [vm_compute; reflexivity|]. split; [vm_compute; reflexivity|]. split; [vm_compute; reflexivity|].
+  intros f. destruct f as [|f]; [reflexivity|]. rewrite unmarshal_S. cbn [peel].
+  apply cex_dup_type_bare.
+Qed.
+
+(* (b) the slope 4 that [unmarshal_top] had before is too small even with an empty
+   atlas: an untyped target takes 5 calls per nested array (any, slice, unmarshal,
+   bare, kind).  60 array heads and nothing else: with 50 + 4 * 60 the answer
+   would be "out of fuel"; with the present 64 + 16 * 60 it is "starved". *)
 Definition empty_atlas : atlas := Atlas [] 0.
 
-Example unmarshal_top_fuel_refuted :
-  uranked empty_atlas 0 = true /\
-  unmarshal_top [] empty_atlas GAny (repeat (Tok (ArrOpen 1) None) 60) = UTFuel /\
-  unmarshal [] empty_atlas 400 GAny (VAny None) (repeat (Tok (ArrOpen 1) None) 60) = UStarved.
+Example unmarshal_old_top_fuel_refuted :
+  cranked empty_atlas 0 = true /\ uranked empty_atlas 0 = true /\
+  unmarshal [] empty_atlas (50 + 4 * 60) GAny (VAny None) (repeat (Tok (ArrOpen 1) None) 60) = UFuel /\
+  unmarshal_top [] empty_atlas GAny (repeat (Tok (ArrOpen 1) None) 60) = UTStarved.
 Proof. vm_compute. repeat split; reflexivity. Qed.
 
 (* in general: n array heads need 5 n calls *)
@@ -1264,9 +1636,12 @@ Proof.
 Qed.
 Print Assumptions unmarshal_slope4_refuted.
 
-(* the hypothesis is satisfiable by an atlas with tags and transforms *)
-Example uranked_ok_atlas : uranked ok_atlas 1 = true /\ uranked ok_atlas 0 = false.
-Proof. vm_compute. split; reflexivity. Qed.
+(* the hypotheses are satisfiable by an atlas with tags and transforms *)
+Example uranked_ok_atlas :
+  uranked ok_atlas 1 = true /\ uranked ok_atlas 0 = false /\
+  cranked ok_atlas 1 = true /\ cranked ok_atlas 0 = false /\
+  wires_ranked ok_atlas 1 = true /\ tags_own_type ok_atlas = true.
+Proof. vm_compute. repeat split; reflexivity. Qed.
 
 (* ---------- unmarshal_top ---------------------------------------------------- *)
 
@@ -1281,17 +1656,17 @@ Definition unmarshal_top_with (E : tenv) (A : atlas) (fuel : nat) (t : gtype) (t
     end.
 
 Lemma unmarshal_top_is_with E A t ts :
-  unmarshal_top E A t ts = unmarshal_top_with E A (50 + 4 * length ts) t ts.
+  unmarshal_top E A t ts = unmarshal_top_with E A (64 + 16 * length ts) t ts.
 Proof. reflexivity. Qed.
 
 (* with fuel (3d+5) + (3d+6) * tokens the driver never runs out *)
-Theorem unmarshal_top_with_total : forall E A d fuel t ts, uranked A d = true ->
+Theorem unmarshal_top_with_total : forall E A d fuel t ts, cranked A d = true ->
   ((3 * d + 5) + (3 * d + 6) * length ts <= fuel)%nat ->
   unmarshal_top_with E A fuel t ts <> UTFuel.
 Proof.
   intros E A d fuel t ts Hr Hf. unfold unmarshal_top_with.
   destruct (reset_fails A 20 t); [discriminate|].
-  pose proof (unmarshal_total E A d Hr fuel t (zero 50 E t) ts Hf) as H.
+  pose proof (unmarshal_total_chains E A d Hr fuel t (zero 50 E t) ts Hf) as H.
   destruct (unmarshal E A fuel t (zero 50 E t) ts); try discriminate. contradiction.
 Qed.
 
@@ -1309,16 +1684,60 @@ Proof.
   - contradiction.
 Qed.
 
-(* [unmarshal_top] itself (fuel 50 + 4 * tokens): never out of fuel on inputs
-   short enough for its budget *)
-Corollary unmarshal_top_total_short : forall E A d t ts, uranked A d = true ->
-  ((3 * d + 5) + (3 * d + 6) * length ts <= 50 + 4 * length ts)%nat ->
+(* [unmarshal_top] itself (fuel 64 + 16 * tokens): never out of fuel, whatever the
+   length of the input, when the token-free chains end within 3 visits *)
+Theorem unmarshal_top_total : forall E A t ts, cranked A 3 = true -> unmarshal_top E A t ts <> UTFuel.
+Proof.
+  intros E A t ts Hr. rewrite unmarshal_top_is_with.
+  apply (unmarshal_top_with_total E A 3 _ t ts Hr). lia.
+Qed.
+
+Lemma cranked_mono A d d' : (d <= d')%nat -> cranked A d = true -> cranked A d' = true.
+Proof.
+  intros Hle. unfold cranked. rewrite !forallb_forall. intros H tg Hin. specialize (H tg Hin).
+  apply andb_true_iff in H. destruct H as [H1 H2]. apply andb_true_iff. split.
+  - rewrite forallb_forall in *. intros e He. specialize (H1 e He). unfold entry_ok in *.
+    destruct (ae_kind e); try reflexivity.
+    replace d' with (d + (d' - d))%nat by lia. apply chain_ok_mono. exact H1.
+  - destruct tg as [g|]; [|reflexivity]. cbn [any_ok] in *.
+    destruct (atlas_by_tag A g); [|reflexivity].
+    replace d' with (d + (d' - d))%nat by lia. apply chain_ok_mono. exact H2.
+Qed.
+
+(* the same under the older hypothesis, and the general form for longer chains
+   (then only inputs short enough for the budget are covered) *)
+Corollary unmarshal_top_total_uranked : forall E A t ts, uranked A 3 = true -> unmarshal_top E A t ts <> UTFuel.
+Proof. intros E A t ts Hr. apply unmarshal_top_total. apply uranked_cranked. exact Hr. Qed.
+
+Corollary unmarshal_top_total_short : forall E A d t ts, cranked A d = true ->
+  ((3 * d + 5) + (3 * d + 6) * length ts <= 64 + 16 * length ts)%nat ->
   unmarshal_top E A t ts <> UTFuel.
 Proof. intros E A d t ts Hr Hf. rewrite unmarshal_top_is_with. eapply unmarshal_top_with_total; eauto. Qed.
 
+(* an atlas without transform entries, whatever else it contains, satisfies cranked A 0;
+   transforms whose wire types are not transforms again give cranked A 2 *)
+Example unmarshal_top_total_applies :
+  cranked empty_atlas 3 = true /\ cranked ok_atlas 3 = true /\ cranked cex_tag_cycle 3 = true.
+Proof. vm_compute. repeat split; reflexivity. Qed.
+
+(* beyond 3 the slope 16 is not enough: a chain of seven transforms in front of a
+   slice costs 18 calls per array head *)
+Definition chain_atlas (k : nat) : atlas :=
+  Atlas (map (fun i => AE (GStruct (Z.of_nat i)) None
+                          (ETransform 5 (if Nat.eqb i k then GSlice (GStruct 1) else GStruct (Z.of_nat (S i)))))
+             (seq 1 k)) 0.
+
+Example unmarshal_top_fuel_refuted :
+  cranked (chain_atlas 7) 7 = true /\ cranked (chain_atlas 7) 6 = false /\
+  unmarshal_top [] (chain_atlas 7) (GStruct 1) (repeat (Tok (ArrOpen 1) None) 40) = UTFuel /\
+  unmarshal [] (chain_atlas 7) 2000 (GStruct 1) (VStruct []) (repeat (Tok (ArrOpen 1) None) 40) = UStarved.
+Proof. vm_compute. repeat split; reflexivity. Qed.
+
 Print Assumptions unmarshal_total_ranked_refuted.
+Print Assumptions unmarshal_total_wires_needs_own_type.
 Print Assumptions unmarshal_top_with_total.
 Print Assumptions unmarshal_top_with_mono.
+Print Assumptions unmarshal_top_total.
 Print Assumptions unmarshal_top_total_short.
 
 
@@ -1405,6 +1824,12 @@ Definition tweight (ts : list token) : nat := sumf tweight1 ts.
 
 Lemma tweight_cons t ts : tweight (t :: ts) = (tweight1 t + tweight ts)%nat.
 Proof. reflexivity. Qed.
+
+Lemma tweight_untag tg ts : tweight (untag_own tg ts) = tweight ts.
+Proof.
+  destruct tg as [t|]; [|reflexivity]. destruct ts as [|[v [t'|]] r]; try reflexivity.
+  cbn [untag_own]. destruct (t =? t'); reflexivity.
+Qed.
 
 Lemma tweight1_pos t : (1 <= tweight1 t)%nat.
 Proof. unfold tweight1. destruct (tv t); lia. Qed.
@@ -1705,7 +2130,7 @@ Section USize.
         * intros H. apply Hf in H. tw. lia.
         * intros H; inversion H; subst. tw. zz. lia.
       + intros H. apply ubind_ok_inv in H. destruct H as (w & r1 & H1 & H2).
-        apply Hb in H1. destruct (tr_bwd kind w) as [x|] eqn:T; [|discriminate].
+        apply Hb in H1. rewrite tweight_untag in H1. destruct (tr_bwd kind w) as [x|] eqn:T; [|discriminate].
         inversion H2; subst. apply tr_bwd_dsize in T. zz. lia.
       + destruct ts as [|[tv0 tg] r]; [discriminate|].
         destruct tv0; try discriminate.
